@@ -700,6 +700,7 @@ class World:
         self.steps = 0
         self.max_steps = 5_000_000
         self.files = {}            # file name -> text written by the analysed code (abstract file system)
+        self.dirs = set()          # directories the analysed code created (the working directory exists; nothing else does)
         self.stdout = None         # list of printed lines when capture is on
         self.stderr = None         # lines printed with file=... (diagnostics) when capture is on
 
@@ -795,6 +796,17 @@ class CtxMgrV:
 class SuppressV:
     def __init__(self, handlers):
         self.handlers = handlers
+
+
+def _norm_dir(d):
+    d = d.replace("\\", "/")
+    while d.startswith("./"):
+        d = d[2:]
+    return d.rstrip("/") if d not in ("/",) else d
+
+
+PATH_IO = {"exists", "is_dir", "is_file", "mkdir", "open", "read_text", "write_text", "read_bytes", "write_bytes", "unlink", "rmdir", "iterdir", "glob", "rglob", "stat", "touch",
+           "resolve", "absolute", "cwd", "home", "expanduser", "samefile", "rename", "replace", "chmod", "lstat", "owner", "group", "symlink_to", "readlink"}
 
 
 def _object_class(world):
@@ -1810,6 +1822,10 @@ class Interp:
                 return ("builtin", "sys.exit")
             if o.name == "os" and a == "getenv":
                 return ("builtin", "os.getenv")
+            if o.name == "os" and a in ("makedirs", "mkdir"):
+                return ("builtin", "os." + a)
+            if o.name == "os.path" and a in ("exists", "isdir", "isfile"):
+                return ("builtin", "os.path." + a)
             if o.name == "inspect" and a == "isclass":
                 return ("builtin", "inspect.isclass")
             return Opaque(o.name + "." + a)
@@ -1971,6 +1987,20 @@ class Interp:
                 if not callable(v):
                     return v
             return ("pymethod", o, a)
+        if type(o).__module__ == "pathlib" and a in PATH_IO:
+            # file-system access through a path object goes to the abstract file system, never to the host's
+            w = self.mod.world
+            if a in ("exists", "is_dir", "is_file"):
+                return ("host", lambda: self.call_builtin({"exists": "os.path.exists", "is_dir": "os.path.isdir", "is_file": "os.path.isfile"}[a], [str(o)], {}))
+            if a == "mkdir":
+                return ("host", lambda mode=0o777, parents=False, exist_ok=False: self.call_builtin("os.makedirs" if parents else "os.mkdir", [str(o)], {"exist_ok": exist_ok}))
+            if a == "open":
+                return ("host", lambda mode="r", *x, **k: self.call_builtin("open", [str(o), mode], {}))
+            if a == "write_text":
+                return ("host", lambda data, *x, **k: self.call_builtin("open", [str(o), "w"], {}).write(data))
+            if a == "read_text":
+                return ("host", lambda *x, **k: self.call_builtin("open", [str(o), "r"], {}).read())
+            raise Unsupported(f"file-system access {type(o).__name__}.{a}")
         if type(o).__module__ in ("pathlib", "re"):
             v = getattr(o, a)
             return ("pymethod", o, a) if callable(v) else v
@@ -2221,12 +2251,38 @@ class Interp:
             raise PyRaise("SystemExit", None)
         if name == "os.getenv":
             return args[1] if len(args) > 1 else kw.get("default")
+        if name in ("os.makedirs", "os.mkdir"):
+            w = self.mod.world
+            d = _norm_dir(str(args[0]))
+            exist_ok = kw.get("exist_ok", args[2] if len(args) > 2 else False)
+            if name == "os.mkdir":
+                parent = _norm_dir(d.rsplit("/", 1)[0]) if "/" in d else ""
+                if parent and parent not in w.dirs:
+                    raise PyRaise("FileNotFoundError", None, ExcV("FileNotFoundError", (2, "No such file or directory")))
+            if d in w.dirs and not exist_ok and name == "os.makedirs" or (d in w.dirs and name == "os.mkdir"):
+                raise PyRaise("FileExistsError", None, ExcV("FileExistsError", (17, "File exists")))
+            parts = d.split("/")
+            for k in range(1, len(parts) + 1):
+                w.dirs.add("/".join(parts[:k]))
+            return None
+        if name.startswith("os.path."):
+            w = self.mod.world
+            d = _norm_dir(str(args[0]))
+            if name == "os.path.isfile":
+                return str(args[0]) in w.files
+            if name == "os.path.isdir":
+                return d in w.dirs or d in ("", ".")
+            return d in w.dirs or d in ("", ".") or str(args[0]) in w.files
         if name == "inspect.isclass":
             return isinstance(args[0], ClassV)
         if name == "open":
             mode = args[1] if len(args) > 1 else kw.get("mode", "r")
             fname = str(args[0])
             if "w" in mode or "a" in mode:
+                parent = _norm_dir(fname.rsplit("/", 1)[0]) if "/" in fname else ""
+                if parent and parent not in self.mod.world.dirs:
+                    # the directory was never created by the analysed code
+                    raise PyRaise("FileNotFoundError", None, ExcV("FileNotFoundError", (2, "No such file or directory", fname)))
                 return FakeFile(self.mod.world, fname, reset="w" in mode)
             if fname not in self.mod.world.files:
                 raise PyRaise("FileNotFoundError", None)
